@@ -3,6 +3,8 @@
 package raft
 
 import (
+	"bytes"
+	realos "os"
 	"time"
 
 	pb "github.com/jmsadair/raft/internal/protobuf"
@@ -184,3 +186,35 @@ func VerifWireInstallSnapshotResponse(r InstallSnapshotResponse) (InstallSnapsho
 // configuration codec (what the bundled transport delegates to).
 func VerifEncodeConfiguration(c *Configuration) ([]byte, error) { return encodeConfiguration(c) }
 func VerifDecodeConfiguration(b []byte) (Configuration, error)  { return decodeConfiguration(b) }
+
+// VerifLogEntries returns copies of the in-memory entries of the bundled
+// file-backed log (including the placeholder at position 0), nil for other
+// implementations or a closed log.
+func VerifLogEntries(l Log) []LogEntry {
+	pl, ok := l.(*persistentLog)
+	if !ok || pl.entries == nil {
+		return nil
+	}
+	out := make([]LogEntry, len(pl.entries))
+	for i, e := range pl.entries {
+		out[i] = *e
+		out[i].Data = append([]byte(nil), e.Data...)
+	}
+	return out
+}
+
+// VerifReadStateFile decodes the term/vote file under dataPath the way the
+// bundled StateStorage would, using the real file system (no interception).
+func VerifReadStateFile(dataPath string) (uint64, string, bool) {
+	data, err := realReadFile(dataPath + "/" + stateDirBase + "/" + stateBase)
+	if err != nil {
+		return 0, "", false
+	}
+	st, err := decodePersistentState(bytes.NewReader(data))
+	if err != nil {
+		return 0, "", false
+	}
+	return st.term, st.votedFor, true
+}
+
+func realReadFile(p string) ([]byte, error) { return realos.ReadFile(p) }
